@@ -85,6 +85,8 @@ class Gen:
         self.depth = depth
         self.addrs = []        # expected address assignments in source order [loc, size, [components]]
         self.n = 0
+        self.std_used = set()
+        self.decl_starts = []  # token index at which every top-level declaration (or TYPE block) starts
 
     # ------------------------------------------------------------------ helpers
     def ok(self, atom):
@@ -99,7 +101,17 @@ class Gen:
     def chance(self, p):
         return self.rng.random() < p
 
+    STD_NAMES = ["TON", "TOF", "TP", "SR", "RS", "CTU", "CTD", "CTUD", "R_TRIG", "F_TRIG", "ton", "Sr", "Ctu_1", "RTC"]
+
     def name(self, prefix="v"):
+        if prefix in ("Fb", "T") and self.ok("name.like-standard-fb") and self.chance(0.06):
+            # names of standard function blocks are ordinary identifiers: a library may declare them itself
+            free = [n for n in self.STD_NAMES if n.lower() not in self.std_used]
+            if free:
+                nm = self.pick(free)
+                self.std_used.add(nm.lower())
+                self.atom("name.like-standard-fb")
+                return nm
         self.n += 1
         stems = ["alpha", "Beta", "gamma_x", "Delta1", "e2e", "Foo", "bar_", "_q", "Motor", "valve", "cnt", "Lvl",
                  "Zone", "quiz", "JazzY", "wxyz", "Khj", "pdq"]
@@ -121,6 +133,10 @@ class Gen:
     # ------------------------------------------------------------------ literals
     def int_text(self, lo=0, hi=1000):
         v = self.rng.randint(lo, hi)
+        if hi >= 1000 and self.ok("lit.int.big") and self.chance(0.04):
+            # beyond 32 and 64 bits (integer literals are kept in 128 bits)
+            self.atom("lit.int.big")
+            v = self.pick([2**32, 2**63, 2**64 - 1, 2**64, 2**64 + 1, 2**100, 2**127, 2**128 - 1, 10**19, 10**30])
         form = self.choose([("lit.int.dec", 6), ("lit.int.underscore", 1), ("lit.int.hex", 1), ("lit.int.oct", 1),
                             ("lit.int.bin", 1)])
         self.atom(form)
@@ -229,6 +245,10 @@ class Gen:
             return [K("BOOL"), O("#", True), K("TRUE" if b else "FALSE", True)], ["bool", b]
         if kind in ("lit.string", "lit.wstring", "lit.string.typed"):
             chars = "".join(self.pick("abc XYZ019_-+*/(){}[];:.,!?<>=") for _ in range(r.randint(0, 8)))
+            if self.ok("lit.string.nonascii") and self.chance(0.2):
+                self.atom("lit.string.nonascii")
+                k = r.randint(0, len(chars))
+                chars = chars[:k] + self.pick(["é", "grün", "straße", "€€", "日本", "ñ", "🙂", "Ж"]) + chars[k:]
             if self.ok("lit.string.otherquote") and self.chance(0.15):
                 # the other kind of quote mark is an ordinary character of a string, also first and last
                 self.atom("lit.string.otherquote")
@@ -1464,6 +1484,7 @@ class Gen:
                 if k == "decl.type":
                     names = [self.name("T") for _ in range(self.rng.randint(1, 3))]
                     t, nf = self.type_block(names)
+                    self.decl_starts.append(len(toks))
                     toks += t
                     nfs += nf
                     i += len(names)
@@ -1485,6 +1506,7 @@ class Gen:
                 if tries > 200:
                     raise
                 continue
+            self.decl_starts.append(len(toks))
             toks += t
             nfs.append(nf)
             i += 1
